@@ -110,6 +110,9 @@ def extra(report, env):
     got = []
     p2.on('callCellValue', lambda cell, setter: (got.append(('cell', view(cell))), setter(5)))
     p2.on('callRangeValue', lambda a, b, setter: (got.append(('range', view(a), view(b))), setter([[1, 2], [3, 4]])))
+    # variables that happen to be named like a cell (in one spelling) change nothing: a cell-shaped token is a cell reference in every case
+    for nm in ('a1', 'ab12', 'xfd1', 'b3', 'Ab12'):
+        p2.set_variable(nm, 'a variable named like a cell')
     for ref in ('a1', '$b$2', 'ab12', 'a1:b3', '$a$1:$b$3', 'b3:a1', 'aa3:ab$10', 'c$2:$c4', 'xfd1', 'a1:xfd2'):
         letters = [i for i, ch in enumerate(ref) if ch.isalpha()]
         outcomes = set()
